@@ -3,7 +3,7 @@ import Anything.Lemmas.C06Eval
 import Anything.Lemmas.C06Shift
 import Anything.Lemmas.C06Lex
 import Anything.Lemmas.C06Root
-import Anything.Generated.Knobs
+import Anything.Generated.KnobsOp
 /-!
 # C06 — operator precedence, associativity and grouping are respected
 
